@@ -11,6 +11,29 @@ pub fn write_fasta(path: &str, seqs: &[Vec<u8>]) {
     }
 }
 
+/// the same with given id numbers (">r<id>"; ids may repeat)
+pub fn write_fasta_ids(path: &str, seqs: &[Vec<u8>], ids: &[usize]) {
+    let mut f = std::io::BufWriter::new(std::fs::File::create(path).unwrap());
+    for (i, s) in seqs.iter().enumerate() {
+        writeln!(f, ">r{}", ids[i]).unwrap();
+        f.write_all(s).unwrap();
+        f.write_all(b"\n").unwrap();
+    }
+}
+
+/// id numbers of the records of such a file (-1 where the name is not r<number>)
+pub fn read_simple_fasta_ids(path: &str) -> Vec<i64> {
+    let data = std::fs::read(path).unwrap();
+    data.split(|&b| b == b'\n')
+        .filter(|l| l.first() == Some(&b'>'))
+        .map(|l| {
+            let t = String::from_utf8_lossy(&l[1..]).to_string();
+            let t = t.split_whitespace().next().unwrap_or("").to_string();
+            t.strip_prefix('r').and_then(|x| x.parse::<i64>().ok()).unwrap_or(-1)
+        })
+        .collect()
+}
+
 #[derive(Clone, Copy, PartialEq)]
 pub enum WPath {
     Auto,
